@@ -242,6 +242,15 @@ def build_harness(name, harness_srcs, repo_srcs, extra_flags=(), shim="shim_time
     return exe
 
 
+SRV_OBJS = ["tun.c", "dns.c", "read.c", "encoding.c", "login.c", "base32.c", "base64.c", "base64u.c", "base128.c", "md5.c",
+            "common.c", "user.c", "fw_query.c"]
+
+
+def build_srv():
+    """h_srv: the real iodined.c (#included, so static functions are the repository's own) driven through tunnel()"""
+    return build_harness("h_srv", ["h_srv.c"], SRV_OBJS, extra_flags=["-DIODINE_VERIF", "-pthread"], shim="shim_srv.h")
+
+
 class RunResult:
     def __init__(self, lines, rc, stderr):
         self.lines, self.rc, self.stderr = lines, rc, stderr
